@@ -1,6 +1,14 @@
-from . import tables, c15
+from . import tables, c15, traces, c12
 
 REGISTRY = {
+    'C01': traces.C01,
+    'C02': traces.C02,
+    'C03': traces.C03,
+    'C11': traces.C11,
+    'C12': c12.C12,
+    'C13': traces.C13,
+    'C17': traces.C17,
+    'DEV': traces.DevAll,
     'C08': tables.C08,
     'C15': c15.C15,
     'C16': tables.C16,
